@@ -718,7 +718,7 @@ impl Hm {
 /// Functions f0..f(n-1), each `fn fk(x) { body }`: body is `x` (or `x + 1` when `int_leaf`) when
 /// the node has no callee, otherwise the nested composition of its callees applied to x.
 /// Expected types by HM with SCC-wise generalisation.
-fn graph_expected(n: usize, edges: &[Vec<usize>], int_leaf: bool) -> Option<Vec<RTy>> {
+fn graph_expected(n: usize, edges: &[Vec<usize>], plus: &[bool]) -> Option<Vec<RTy>> {
     // Tarjan-free SCC via reachability (n <= 3)
     let reach = |a: usize, b: usize| -> bool {
         let mut seen = vec![false; n];
@@ -753,22 +753,20 @@ fn graph_expected(n: usize, edges: &[Vec<usize>], int_leaf: bool) -> Option<Vec<
         for &g in &group {
             let T::F(a, r) = mono[&g].clone() else { unreachable!() };
             let mut cur = *a.clone();
-            if edges[g].is_empty() {
-                if int_leaf {
-                    if !hm.unify(&cur, &T::I) {
-                        return None;
-                    }
-                    cur = T::I;
+            for &c in edges[g].iter().rev() {
+                let ft = if group.contains(&c) { mono[&c].clone() } else { hm.instantiate(&done[c].clone().unwrap(), &mut HashMap::new()) };
+                let res = hm.fresh();
+                if !hm.unify(&ft, &T::F(Box::new(cur.clone()), Box::new(res.clone()))) {
+                    return None;
                 }
-            } else {
-                for &c in edges[g].iter().rev() {
-                    let ft = if group.contains(&c) { mono[&c].clone() } else { hm.instantiate(&done[c].clone().unwrap(), &mut HashMap::new()) };
-                    let res = hm.fresh();
-                    if !hm.unify(&ft, &T::F(Box::new(cur.clone()), Box::new(res.clone()))) {
-                        return None;
-                    }
-                    cur = res;
+                cur = res;
+            }
+            // `.. + 1`
+            if plus[g] {
+                if !hm.unify(&cur, &T::I) {
+                    return None;
                 }
+                cur = T::I;
             }
             if !hm.unify(&r, &cur) {
                 return None;
@@ -782,23 +780,287 @@ fn graph_expected(n: usize, edges: &[Vec<usize>], int_leaf: bool) -> Option<Vec<
     Some(done.iter().map(|t| hm.to_rty(t.as_ref().unwrap(), &mut HashMap::new())).collect())
 }
 
-fn graph_program(n: usize, edges: &[Vec<usize>], order: &[usize], int_leaf: bool) -> String {
+/// `names[k]`: None = the parameter is called `x`, Some(j) = it is called like the function f<j>
+/// (only where f<k> does not call f<j>: the parameter then shadows a function it never uses).
+fn graph_program(n: usize, edges: &[Vec<usize>], order: &[usize], plus: &[bool], names: &[Option<usize>]) -> String {
     let mut s = String::new();
     for &k in order {
-        let mut body = "x".to_string();
-        if edges[k].is_empty() {
-            if int_leaf {
-                body = "x + 1".into();
-            }
-        } else {
-            for &c in edges[k].iter().rev() {
-                body = format!("f{c}({body})");
-            }
+        let p = match names[k] {
+            None => "x".to_string(),
+            Some(j) => format!("f{j}"),
+        };
+        let mut body = p.clone();
+        for &c in edges[k].iter().rev() {
+            body = format!("f{c}({body})");
         }
-        s.push_str(&format!("fn f{k}(x) {{ {body} }}\n"));
+        if plus[k] {
+            body = format!("{body} + 1");
+        }
+        s.push_str(&format!("fn f{k}({p}) {{ {body} }}\n"));
     }
     let _ = n;
     s
+}
+
+
+// ------------------------------------------------------------------ call graphs of two-parameter functions
+
+#[derive(Clone, Debug)]
+enum T2 {
+    V(usize),
+    P(Box<T2>, Box<T2>),
+    F(Box<T2>, Box<T2>, Box<T2>),
+}
+
+#[derive(Default)]
+struct Hm2 {
+    sub: Vec<Option<T2>>,
+}
+
+impl Hm2 {
+    fn fresh(&mut self) -> T2 {
+        self.sub.push(None);
+        T2::V(self.sub.len() - 1)
+    }
+    fn find(&self, t: &T2) -> T2 {
+        match t {
+            T2::V(i) => match &self.sub[*i] {
+                Some(u) => self.find(u),
+                None => t.clone(),
+            },
+            T2::P(a, b) => T2::P(Box::new(self.find(a)), Box::new(self.find(b))),
+            T2::F(a, b, r) => T2::F(Box::new(self.find(a)), Box::new(self.find(b)), Box::new(self.find(r))),
+        }
+    }
+    fn occurs(&self, i: usize, t: &T2) -> bool {
+        match self.find(t) {
+            T2::V(j) => i == j,
+            T2::P(a, b) => self.occurs(i, &a) || self.occurs(i, &b),
+            T2::F(a, b, r) => self.occurs(i, &a) || self.occurs(i, &b) || self.occurs(i, &r),
+        }
+    }
+    fn unify(&mut self, a: &T2, b: &T2) -> bool {
+        let (a, b) = (self.find(a), self.find(b));
+        match (&a, &b) {
+            (T2::V(i), T2::V(j)) if i == j => true,
+            (T2::V(i), t) | (t, T2::V(i)) => {
+                if self.occurs(*i, t) {
+                    return false;
+                }
+                self.sub[*i] = Some(t.clone());
+                true
+            }
+            (T2::P(a1, a2), T2::P(b1, b2)) => self.unify(a1, b1) && self.unify(a2, b2),
+            (T2::F(a1, a2, a3), T2::F(b1, b2, b3)) => self.unify(a1, b1) && self.unify(a2, b2) && self.unify(a3, b3),
+            _ => false,
+        }
+    }
+    fn instantiate(&mut self, t: &T2, map: &mut HashMap<usize, T2>) -> T2 {
+        match self.find(t) {
+            T2::V(i) => map.entry(i).or_insert_with(|| self.fresh()).clone(),
+            T2::P(a, b) => {
+                let (a2, b2) = (self.instantiate(&a, map), self.instantiate(&b, map));
+                T2::P(Box::new(a2), Box::new(b2))
+            }
+            T2::F(a, b, r) => {
+                let (a2, b2, r2) = (self.instantiate(&a, map), self.instantiate(&b, map), self.instantiate(&r, map));
+                T2::F(Box::new(a2), Box::new(b2), Box::new(r2))
+            }
+        }
+    }
+    fn to_rty(&self, t: &T2, names: &mut HashMap<usize, String>) -> RTy {
+        match self.find(t) {
+            T2::V(i) => {
+                let n = names.len();
+                Var(names.entry(i).or_insert_with(|| format!("v{n}")).clone())
+            }
+            T2::P(a, b) => Tuple(vec![self.to_rty(&a, names), self.to_rty(&b, names)]),
+            T2::F(a, b, r) => Fn(vec![self.to_rty(&a, names), self.to_rty(&b, names)], Box::new(self.to_rty(&r, names))),
+        }
+    }
+}
+
+/// Body of a two-parameter function `fn fk(p a, q b)`: the pair of its parameters, a call of
+/// f<callee> with the parameters in some order (positional, labelled in declaration order, labelled
+/// in the other order), or a case whose branches are both.
+#[derive(Clone, Copy, Debug, PartialEq, Eq)]
+struct Body2 {
+    /// None = leaf `#(a, b)`
+    call: Option<(usize, bool, u8)>, // (callee, arguments swapped, style 0 positional / 1 labelled / 2 labelled, other order)
+    both: bool,
+}
+
+fn bodies2(n: usize) -> Vec<Body2> {
+    let mut v = vec![Body2 { call: None, both: false }];
+    for both in [false, true] {
+        for k in 0..n {
+            for swapped in [false, true] {
+                for style in 0..3u8 {
+                    v.push(Body2 { call: Some((k, swapped, style)), both });
+                }
+            }
+        }
+    }
+    v
+}
+
+fn program2(bodies: &[Body2], order: &[usize]) -> String {
+    let mut s = String::new();
+    for &k in order {
+        let b = bodies[k];
+        let leaf = "#(a, b)".to_string();
+        let text = match b.call {
+            None => leaf,
+            Some((c, swapped, style)) => {
+                // the value passed for the callee's first (p) and second (q) parameter
+                let (first, second) = if swapped { ("b", "a") } else { ("a", "b") };
+                let call = match style {
+                    0 => format!("f{c}({first}, {second})"),
+                    1 => format!("f{c}(p: {first}, q: {second})"),
+                    _ => format!("f{c}(q: {second}, p: {first})"),
+                };
+                if b.both {
+                    format!("case True {{ True -> {leaf} False -> {call} }}")
+                } else {
+                    call
+                }
+            }
+        };
+        s.push_str(&format!("fn f{k}(p a, q b) {{ {text} }}\n"));
+    }
+    s
+}
+
+fn expected2(bodies: &[Body2]) -> Option<Vec<RTy>> {
+    let n = bodies.len();
+    let edges: Vec<Vec<usize>> = bodies.iter().map(|b| b.call.map(|c| vec![c.0]).unwrap_or_default()).collect();
+    let reach = |a: usize, b: usize| -> bool {
+        let mut seen = vec![false; n];
+        let mut st = vec![a];
+        while let Some(x) = st.pop() {
+            for &y in &edges[x] {
+                if y == b {
+                    return true;
+                }
+                if !seen[y] {
+                    seen[y] = true;
+                    st.push(y);
+                }
+            }
+        }
+        false
+    };
+    let same = |a: usize, b: usize| a == b || (reach(a, b) && reach(b, a));
+    let mut hm = Hm2::default();
+    let mut done: Vec<Option<T2>> = vec![None; n];
+    let mut remaining: Vec<usize> = (0..n).collect();
+    while !remaining.is_empty() {
+        let k = *remaining.iter().find(|&&k| remaining.iter().all(|&o| !same(k, o) || edges[o].iter().all(|&c| same(o, c) || done[c].is_some())))?;
+        let group: Vec<usize> = remaining.iter().copied().filter(|&o| same(k, o)).collect();
+        let mut mono: HashMap<usize, T2> = HashMap::new();
+        for &g in &group {
+            let (a, b, r) = (hm.fresh(), hm.fresh(), hm.fresh());
+            mono.insert(g, T2::F(Box::new(a), Box::new(b), Box::new(r)));
+        }
+        for &g in &group {
+            let T2::F(a, b, r) = mono[&g].clone() else { unreachable!() };
+            let leaf = T2::P(a.clone(), b.clone());
+            match bodies[g].call {
+                None => {
+                    if !hm.unify(&r, &leaf) {
+                        return None;
+                    }
+                }
+                Some((c, swapped, _)) => {
+                    let ft = if group.contains(&c) { mono[&c].clone() } else { hm.instantiate(&done[c].clone().unwrap(), &mut HashMap::new()) };
+                    let (x, y) = if swapped { (b.clone(), a.clone()) } else { (a.clone(), b.clone()) };
+                    let res = hm.fresh();
+                    if !hm.unify(&ft, &T2::F(x, y, Box::new(res.clone()))) {
+                        return None;
+                    }
+                    if !hm.unify(&r, &res) {
+                        return None;
+                    }
+                    if bodies[g].both && !hm.unify(&r, &leaf) {
+                        return None;
+                    }
+                }
+            }
+        }
+        for &g in &group {
+            done[g] = Some(hm.find(&mono[&g]));
+        }
+        remaining.retain(|o| !group.contains(o));
+    }
+    Some((0..n).map(|k| hm.to_rty(done[k].as_ref().unwrap(), &mut HashMap::new())).collect())
+}
+
+fn check_program2(bodies: &[Body2], order: &[usize]) -> Option<(u64, Vec<String>, String)> {
+    let want = expected2(bodies)?;
+    let text = program2(bodies, order);
+    let (host, file) = AnalysisHost::new_single_file(&text);
+    let an = host.snapshot();
+    let mut fails = vec![];
+    let mut q = 0;
+    for k in 0..bodies.len() {
+        let off = text.find(&format!("fn f{k}(")).unwrap() + 3;
+        q += 1;
+        let got = hover_type(&an, file, off);
+        let ok = match &got {
+            Ok(Some(g)) => g.strip_prefix(&format!("fn f{k}")).map(|r| format!("fn{r}")).and_then(|s| parse_ty(&s)).map_or(false, |g| alpha_eq(&g, &want[k])),
+            _ => false,
+        };
+        if !ok {
+            fails.push(format!("f{k} is shown as {got:?}, Gleam's type is `{}`", show(&want[k])));
+        }
+    }
+    Some((q, fails, text))
+}
+
+fn binary_graphs_layer(rep: &mut Report) {
+    let n = 2;
+    let bs = bodies2(n);
+    let jobs: Vec<(usize, usize)> = (0..bs.len()).flat_map(|a| (0..bs.len()).map(move |b| (a, b))).collect();
+    let res: Vec<(u64, Vec<Violation>)> = jobs
+        .par_iter()
+        .map(|&(a, b)| {
+            let bodies = [bs[a], bs[b]];
+            let mut viol = vec![];
+            let mut q = 0;
+            for order in permutations(n) {
+                let Some((n_q, fails, text)) = check_program2(&bodies, &order) else { return (0, vec![]) };
+                q += n_q;
+                if let Some(f) = fails.first() {
+                    if viol.is_empty() {
+                        let labelled = bodies.iter().any(|b| matches!(b.call, Some((_, _, s)) if s > 0));
+                        let reordered = bodies.iter().any(|b| matches!(b.call, Some((_, _, 2))));
+                        let swapped = bodies.iter().any(|b| matches!(b.call, Some((_, true, _))));
+                        let recursive = (0..n).any(|k| matches!(bodies[k].call, Some((c, _, _)) if c == k)) || (matches!(bodies[0].call, Some((1, _, _))) && matches!(bodies[1].call, Some((0, _, _))));
+                        viol.push(Violation {
+                            class: "function-type".into(),
+                            key: format!("call-graph-2|{}|{}{}{}", if recursive { "recursive" } else { "acyclic" }, if swapped { "arguments-swapped" } else { "arguments-in-order" }, if reordered { "|labels-reordered" } else if labelled { "|labelled" } else { "" }, if bodies.iter().any(|b| b.both) { "|case-with-leaf" } else { "" }),
+                            witness: json!({"bodies2": [a, b], "order": order, "text": text}),
+                            detail: format!("program {text:?}: {f}"),
+                        });
+                    }
+                }
+            }
+            (q, viol)
+        })
+        .collect();
+    let mut l = Layer { name: "call-graphs-two-parameters".into(), exhaustive: true, ..Default::default() };
+    for (q, v) in res {
+        if q > 0 {
+            l.executions += 1;
+            l.states += 1;
+        }
+        l.transitions += q;
+        for x in v {
+            rep.violation(x);
+        }
+    }
+    l.bound = format!("2 functions `fn fk(p a, q b)`, each body one of {} forms (the pair `#(a, b)`; a call of f0 / f1 with the parameters in either order, written positionally, with labels in declaration order or with labels in the other order; or a case with the pair in one branch and such a call in the other) = all {} pairs (ill-typed ones by the reference HM excluded) x both item orders", bs.len(), bs.len() * bs.len());
+    rep.layer(l);
 }
 
 fn permutations(n: usize) -> Vec<Vec<usize>> {
@@ -824,34 +1086,54 @@ fn graphs_layer(rep: &mut Report, tier: Tier) {
     let n = tier.pick(2usize, 3usize);
     // every digraph on n nodes (self loops included), callee lists in ascending order
     let bits = n * n;
-    let jobs: Vec<(u32, bool)> = (0..(1u32 << bits)).flat_map(|m| [(m, false), (m, true)]).collect();
+    let jobs: Vec<(u32, u32)> = (0..(1u32 << bits)).flat_map(|m| (0..(1u32 << n)).map(move |p| (m, p))).collect();
     let res: Vec<(u64, Vec<Violation>)> = jobs
         .par_iter()
-        .map(|&(mask, int_leaf)| {
+        .map(|&(mask, pmask)| {
             let edges: Vec<Vec<usize>> = (0..n).map(|a| (0..n).filter(|b| mask & (1 << (a * n + b)) != 0).collect()).collect();
-            if int_leaf && edges.iter().all(|e| !e.is_empty()) {
-                // no leaf function: identical to the identity-leaf variant
-                return (0, vec![]);
+            let plus: Vec<bool> = (0..n).map(|k| pmask & (1 << k) != 0).collect();
+            let Some(want) = graph_expected(n, &edges, &plus) else { return (0, vec![]) };
+            // parameter names: all `x`, or parameters spelled like a function their owner does not call
+            // (n = 2: every combination; n = 3: one renamed parameter at a time)
+            let mut namings: Vec<Vec<Option<usize>>> = vec![vec![None; n]];
+            let options = |k: usize| -> Vec<Option<usize>> { std::iter::once(None).chain((0..n).filter(|j| !edges[k].contains(j)).map(Some)).collect() };
+            if n == 2 {
+                namings.clear();
+                for a in options(0) {
+                    for b in options(1) {
+                        namings.push(vec![a, b]);
+                    }
+                }
+            } else {
+                for k in 0..n {
+                    for o in options(k).into_iter().flatten() {
+                        let mut v = vec![None; n];
+                        v[k] = Some(o);
+                        namings.push(v);
+                    }
+                }
             }
-            let Some(want) = graph_expected(n, &edges, int_leaf) else { return (0, vec![]) };
             let mut viol = vec![];
             let mut q = 0;
-            for order in permutations(n) {
-                let text = graph_program(n, &edges, &order, int_leaf);
-                let (host, file) = AnalysisHost::new_single_file(&text);
-                let an = host.snapshot();
-                for k in 0..n {
-                    let off = text.find(&format!("fn f{k}(")).unwrap() + 3;
-                    q += 1;
-                    let got = hover_type(&an, file, off);
-                    let wk = &want[k];
-                    let ok = match &got {
-                        Ok(Some(g)) => g.strip_prefix(&format!("fn f{k}")).map(|r| format!("fn{r}")).and_then(|s| parse_ty(&s)).map_or(false, |g| alpha_eq(&g, wk)),
-                        _ => false,
-                    };
-                    if !ok && viol.len() < 2 {
-                        let recursive = edges.iter().enumerate().any(|(a, e)| e.contains(&a)) || (0..n).any(|a| (0..n).any(|b| a != b && edges[a].contains(&b) && edges[b].contains(&a)));
-                        viol.push(Violation { class: "function-type".into(), key: format!("call-graph|{}|n={n} edges={:?}|{}", if recursive { "recursive" } else { "acyclic" }, edges, if int_leaf { "int-leaves" } else { "identity-leaves" }), witness: json!({"n": n, "mask": mask, "int_leaf": int_leaf, "order": order, "text": text}), detail: format!("program {:?}: f{k} is shown as {got:?}, Gleam's type is `{}`", text, show(wk)) });
+            for names in &namings {
+                for order in permutations(n) {
+                    let text = graph_program(n, &edges, &order, &plus, names);
+                    let (host, file) = AnalysisHost::new_single_file(&text);
+                    let an = host.snapshot();
+                    for k in 0..n {
+                        let off = text.find(&format!("fn f{k}(")).unwrap() + 3;
+                        q += 1;
+                        let got = hover_type(&an, file, off);
+                        let wk = &want[k];
+                        let ok = match &got {
+                            Ok(Some(g)) => g.strip_prefix(&format!("fn f{k}")).map(|r| format!("fn{r}")).and_then(|s| parse_ty(&s)).map_or(false, |g| alpha_eq(&g, wk)),
+                            _ => false,
+                        };
+                        if !ok && viol.len() < 3 {
+                            let recursive = edges.iter().enumerate().any(|(a, e)| e.contains(&a)) || (0..n).any(|a| (0..n).any(|b| a != b && edges[a].contains(&b) && edges[b].contains(&a)));
+                            let shadow = names.iter().any(|x| x.is_some());
+                            viol.push(Violation { class: "function-type".into(), key: format!("call-graph|{}|n={n} edges={:?}|plus={:?}{}", if recursive { "recursive" } else { "acyclic" }, edges, plus, if shadow { "|parameter spelled like a function" } else { "" }), witness: json!({"n": n, "mask": mask, "plus": pmask, "names": names, "order": order, "text": text}), detail: format!("program {:?}: f{k} is shown as {got:?}, Gleam's type is `{}`", text, show(wk)) });
+                        }
                     }
                 }
             }
@@ -867,7 +1149,7 @@ fn graphs_layer(rep: &mut Report, tier: Tier) {
             rep.violation(x);
         }
     }
-    l.bound = format!("all digraphs on {n} functions (self loops included; ill-typed ones by the reference HM excluded) x leaves {{identity, x + 1}} x all {} item orders; expected types by a reference Hindley-Milner with SCC-wise generalisation", permutations(n).len());
+    l.bound = format!("all digraphs on {n} functions (self loops included; ill-typed ones by the reference HM excluded) x every subset of functions ending in `+ 1` x parameter names (`x`, or spelled like a function the owner does not call: all combinations for n = 2, one at a time for n = 3) x all {} item orders; expected types by a reference Hindley-Milner with SCC-wise generalisation", permutations(n).len());
     rep.layer(l);
 }
 
@@ -970,6 +1252,7 @@ pub fn run(tier: Tier) -> i32 {
     rl.bound = format!("{} statements: for four records (all fields labelled; generic; no labels; one unlabelled then three labelled with a type parameter) with fields of distinct types, every positional prefix followed by every ordered selection of the remaining labelled fields (patterns in let and in case, with `..` when incomplete; complete constructor calls), plus field access", rcs.len());
     rep.layer(rl);
     graphs_layer(&mut rep, tier);
+    binary_graphs_layer(&mut rep);
     rep.distinct_nontrivial = exprs.len() as u64;
     rep.distinct_outcomes = 1 + rep.violations.iter().map(|v| v.key.clone()).collect::<BTreeSet<_>>().len() as u64;
     rep.rule = "each expression is distinct by text; its type is known by construction (typing rules); shown types are parsed and compared up to a bijective renaming of type variables".into();
@@ -996,12 +1279,19 @@ pub fn replay(w: &Value) -> Vec<String> {
             return check_bindings(&[stmt.to_string()], &expect).into_iter().map(|f| f.1).collect();
         }
     }
+    if let Some(b) = w["bodies2"].as_array() {
+        let bs = bodies2(2);
+        let bodies = [bs[b[0].as_u64().unwrap_or(0) as usize], bs[b[1].as_u64().unwrap_or(0) as usize]];
+        let order: Vec<usize> = w["order"].as_array().map(|a| a.iter().filter_map(|x| x.as_u64()).map(|x| x as usize).collect()).unwrap_or_else(|| vec![0, 1]);
+        return check_program2(&bodies, &order).map(|r| r.1).unwrap_or_default();
+    }
     if let Some(text) = w["text"].as_str() {
         let n = w["n"].as_u64().unwrap_or(2) as usize;
         let mask = w["mask"].as_u64().unwrap_or(0) as u32;
-        let int_leaf = w["int_leaf"].as_bool().unwrap_or(false);
+        let pmask = w["plus"].as_u64().unwrap_or(0) as u32;
+        let plus: Vec<bool> = (0..n).map(|k| pmask & (1 << k) != 0).collect();
         let edges: Vec<Vec<usize>> = (0..n).map(|a| (0..n).filter(|b| mask & (1 << (a * n + b)) != 0).collect()).collect();
-        let Some(want) = graph_expected(n, &edges, int_leaf) else { return vec![] };
+        let Some(want) = graph_expected(n, &edges, &plus) else { return vec![] };
         let (host, file) = AnalysisHost::new_single_file(text);
         let an = host.snapshot();
         let mut out = vec![];
